@@ -23,13 +23,16 @@ func zzH_C09_retain() {
 	b, err := r.Peek(n2) // may grow the buffer
 	zzAssume(err == nil)
 	zzHavocFreed()
-	zzAssert(zzAnd(!zzIsFreed(a), !zzIsFreed(b)), "a handed-out slice was recycled before Release")
+	zzAssertLive(a, "a handed-out slice was recycled before Release")
+	zzAssertLive(b, "a handed-out slice was recycled before Release")
 	zzAssertEqBytes(a, data[:n1], "first slice changed after a later read grew the buffer")
 	n3 := zzInt("n3", 1, zzParam("NMAX"))
 	c, err := r.Next(n3) // may grow again
 	zzAssume(err == nil)
 	zzHavocFreed()
-	zzAssert(zzAnd(!zzIsFreed(a), zzAnd(!zzIsFreed(b), !zzIsFreed(c))), "a handed-out slice was recycled before Release")
+	zzAssertLive(a, "a handed-out slice was recycled before Release")
+	zzAssertLive(b, "a handed-out slice was recycled before Release")
+	zzAssertLive(c, "a handed-out slice was recycled before Release")
 	zzAssertEqBytes(a, data[:n1], "first slice changed after the buffer grew twice")
 	zzAssertEqBytes(b, data[n1:n1+n2], "peeked slice changed after a later read")
 	zzAssertEqBytes(c, data[n1:n1+n3], "latest slice differs from the stream")
@@ -76,7 +79,7 @@ func zzH_C09_caller() {
 		}
 	}
 	zzAssert(r.Release(nil) == nil, "Release failed")
-	zzAssert(!zzIsFreed(data), "the caller's slice was recycled into the pool")
+	zzAssertLive(data, "the caller's slice was recycled into the pool")
 	zzAssertEqBytes(data, snapshot, "the caller's slice was modified")
 	zzReach("done")
 }
@@ -97,7 +100,8 @@ func zzH_C09_writer() {
 	_, err = w.WriteBinary(pl)
 	zzAssume(err == nil)
 	zzHavocFreed()
-	zzAssert(zzAnd(!zzIsFreed(a), !zzIsFreed(b)), "a region was recycled before Flush")
+	zzAssertLive(a, "a region was recycled before Flush")
+	zzAssertLive(b, "a region was recycled before Flush")
 	zzAssert(zzDisjoint(a, b), "regions overlap")
 	fa, fb := zzBytes("fa", n1), zzBytes("fb", n2)
 	copy(b, fb) // fill in reverse order, late
